@@ -210,7 +210,7 @@ Definition apply_mutations (c : client) (tick : N) (server_entity : N) (comps : 
     | Some x =>
       if negb (ce_alive x) then Ok (Abort c) else
       match ce_hist x with
-      | None => Ok (Abort c)                                      (* "missing history component" *)
+      | None => Ok (Continue c)                                   (* no history: only reserved by a reference; the data is for an earlier incarnation and is skipped *)
       | Some h =>
         if tick_gtb tick (h_last h) then
           let* h' := hist_set_last_tick h tick in
